@@ -28,6 +28,9 @@ type Case struct {
 	Name      string   `json:"summary_name"`
 	DSSE      bool     `json:"dsse"`
 	Choices   []int    `json:"choices,omitempty"`
+	// OthersMulti: every other step has threshold 2 and two agreeing links as well (a disagreement in one step
+	// must not be forgotten because a later step is in order)
+	OthersMulti bool `json:"others_multi,omitempty"`
 }
 
 var diffs = []string{"mat-added", "mat-removed", "mat-renamed", "mat-digest", "prod-added", "prod-removed", "prod-renamed", "prod-digest",
@@ -126,7 +129,14 @@ func build(base string, cs Case) built {
 		if i != cs.Chosen {
 			k := other
 			keys[k.ID] = k.Pub
-			steps = append(steps, gen.Step(name, 1, []string{k.ID}, mr, pr))
+			if cs.OthersMulti {
+				k2 := gen.Key("ed8")
+				keys[k2.ID] = k2.Pub
+				steps = append(steps, gen.Step(name, 2, []string{k.ID, k2.ID}, mr, pr))
+				gen.DumpLink(dir, name, k2.ID, gen.MustWrap(gen.Link(name, m, p, "cmd", name, "second"), cs.DSSE, k2.Full))
+			} else {
+				steps = append(steps, gen.Step(name, 1, []string{k.ID}, mr, pr))
+			}
 			gen.DumpLink(dir, name, k.ID, gen.MustWrap(gen.Link(name, m, p, "cmd", name), cs.DSSE, k.Full))
 			continue
 		}
@@ -308,6 +318,9 @@ func run(c *mcx.Ctx) {
 						for _, name := range []string{"", "x"} {
 							do(Case{Steps: steps, Chosen: chosen, Threshold: k, Extra: extra, Name: name, DSSE: dsse, Strict: true})
 						}
+						if steps > 1 && extra == 0 {
+							do(Case{Steps: steps, Chosen: chosen, Threshold: k, Extra: extra, Name: "x", DSSE: dsse, Strict: true, OthersMulti: true})
+						}
 						if k+extra < 2 {
 							continue
 						}
@@ -317,6 +330,9 @@ func run(c *mcx.Ctx) {
 									continue // quick: first, second and last link
 								}
 								do(Case{Steps: steps, Chosen: chosen, Threshold: k, Extra: extra, Diff: d, DiffOn: j, DSSE: dsse, Strict: steps%2 == 0})
+								if steps > 1 && extra == 0 && (d == "prod-digest" || d == "mat-added") {
+									do(Case{Steps: steps, Chosen: chosen, Threshold: k, Extra: extra, Diff: d, DiffOn: j, DSSE: dsse, Strict: steps%2 == 0, OthersMulti: true})
+								}
 							}
 						}
 					}
@@ -362,7 +378,7 @@ func replay(c *mcx.Ctx, raw json.RawMessage) (string, string) {
 func init() {
 	mcx.Register(&mcx.Driver{
 		ID: "C05", Run: run, Replay: replay,
-		Rule: "full product: layouts with 1..3 steps x the step that has several links x threshold 1..3 x 0/1 valid links beyond the threshold x {no difference, one of 13 single-point differences (material/product path added, removed, renamed, re-spelled as ./path, digest changed, algorithm renamed, algorithm added) on link j} x summary name {\"\",x} x {legacy, DSSE}; " +
+		Rule: "full product: layouts with 1..3 steps x the step that has several links x threshold 1..3 x 0/1 valid links beyond the threshold x {no difference, one of 13 single-point differences (material/product path added, removed, renamed, re-spelled as ./path, digest changed, algorithm renamed, algorithm added) on link j} x summary name {\"\",x} x {legacy, DSSE}; also with every other step carrying two agreeing links for threshold 2 (a later step in order must not hide an earlier disagreement); " +
 			"plus every non-empty subset of {unsigned, unauthorised, tampered} uncounted links carrying other artifacts, a link validly signed by a functionary of the other steps only, unparsable files named like links of the step (sorting before, between and after the real ones), and those together x strict/permissive rules; a digest difference on each counted link next to the unparsable files; each case under EVERY iteration order of the reference-link pick, the link comparison and the counting loop (the comparison loop and every other map range: one order deviation, for cases with <= 2 links in quick and all cases in thorough; quick has at most 3 links per step, thorough 4). Counted links always differ in command and by-products (which is legitimate). " +
 			"non-trivial = more than one counted link or some uncounted link. states = cases, transitions = choice points passed.",
 		Assumptions: []string{"which links count is known by construction", "iteration order inside dependencies is not owned"},
